@@ -60,6 +60,10 @@ var covering = []string{
 	`permit (principal, action, resource) when { principal.a + 1 > 0 || resource.hasTag("k") };`,
 	`forbid (principal, action, resource) when { {a: 1 + "x", b: principal.missing}.a };`,
 	`permit (principal, action, resource) when { principal in [context.a, User::"a"] && (1 + 1 == 2) && !(false || context.b == 3) };`,
+	`permit (principal, action, resource) when { ip(context.name).isInRange(ip("10.0.0.0/8")) || decimal(context.a).greaterThan(decimal("1.0")) };`,
+	`forbid (principal, action, resource) when { datetime(context.name) > datetime("2024-01-01") || duration(context.b).toHours() > 1 };`,
+	`permit (principal, action, resource) when { [principal, context.a, resource].contains(User::"a") && {x: context.a, y: principal}.y == principal };`,
+	`permit (principal, action, resource) when { context.name like "1*" && principal.name like "*a*" };`,
 }
 
 type fixture struct {
@@ -109,8 +113,31 @@ func genFixture(r *core.Run) *fixture {
 		f.texts = append(f.texts, txt)
 	}
 	f.ents = g.Entities()
+	if r.T.Intn(4) == 3 {
+		// a legal Go value: the entity's own UID field left at its zero value
+		k := types.NewEntityUID("Doc", "unset")
+		f.ents[k] = types.Entity{Parents: types.NewEntityUIDSet(g.UID()), Attributes: g.Record(0)}
+	}
 	for i := 0; i < 3; i++ {
 		f.reqs = append(f.reqs, g.Request())
+	}
+	// contexts with strings that extension constructors accept, so that ip(context.name) etc.
+	// are evaluated (not only fail) per request
+	if r.T.Bool() {
+		cm := f.reqs[0].Context.Map()
+		if cm == nil {
+			cm = types.RecordMap{}
+		}
+		cm["name"] = types.String([]string{"10.0.0.1", "127.0.0.1", "2024-06-01", "192.168.1.1"}[r.T.Intn(4)])
+		cm["a"] = types.String("1.5")
+		cm["b"] = types.String("2h")
+		f.reqs[0].Context = types.NewRecord(cm)
+		cm2 := f.reqs[1].Context.Map()
+		if cm2 == nil {
+			cm2 = types.RecordMap{}
+		}
+		cm2["name"] = types.String([]string{"10.9.9.9", "::1", "2023-01-01", "8.8.8.8"}[r.T.Intn(4)])
+		f.reqs[1].Context = types.NewRecord(cm2)
 	}
 	for i := 0; i < 2; i++ {
 		q := f.reqs[i]
